@@ -55,13 +55,16 @@ stageLoop:
 			*logql.LabelFilter,
 			*logql.LabelFormatExpr,
 			*logql.DropLabelsExpr,
-			*logql.KeepLabelsExpr,
-			*logql.DistinctFilter:
+			*logql.KeepLabelsExpr:
 			// Do nothing on line, just skip.
 		case *logql.LineFormat,
 			*logql.DecolorizeExpr,
 			*logql.UnpackLabelParser:
 			// Stage modify the line, can't offload line filters after this stage.
+			break stageLoop
+		case *logql.DistinctFilter:
+			// Stage is stateful: what it keeps depends on the records it has seen,
+			// so a line filter that follows it must not run before it.
 			break stageLoop
 		}
 	}
